@@ -65,7 +65,7 @@ def run_case(case) -> List[Tuple[str, str]]:
             d = os.path.join(work, mode)
             logdir, snapdir = os.path.join(d, "logs"), os.path.join(d, "snaps")
             os.makedirs(logdir)
-            cfg = E.validated_cfg({"t4": {"snapshot_dir": snapdir, "snapshot_every_n_turns": 1},
+            cfg = E.validated_cfg({"t4": {"enabled": not case.get("kill", False), "snapshot_dir": snapdir, "snapshot_every_n_turns": 1},
                                    "perf": {"enabled": True, "parallel": {"enabled": mode == "batch", "agents": True, "max_workers": max(2, case["workers"])}}})
             # worker limit 1 closes the gate by definition; the model's workers=1 is realised with the gate
             # open through the selection limit (max_workers is read again by the selector)
@@ -80,10 +80,16 @@ def run_case(case) -> List[Tuple[str, str]]:
                 agent = str(c.agent_id)
                 turn = c.turn_id
                 _computes.append((agent, bool(getattr(c, "_dry_run_until_t4", False)), sum(_store.applied.values())))
-                for s in ("t1", "t2", "t4"):
+                killed = not bool((c.cfg.get("t4") or {}).get("enabled", True))
+                for s in (("t1", "t2") if killed else ("t1", "t2", "t4")):
                     append_jsonl(s + ".jsonl", _pad_payload(s, agent, turn, _sizes[s]))
                 deltas = [ProposedDelta("node", f"n:{agent}", "weight", 0.125, op_idx=None, idx=0)]
                 utter = f"utter-{agent}-{text}"
+                if killed:
+                    # kill switch: the real run_turn stops after T2/T3 - no T4 record, nothing stashed for the
+                    # driver in dry-run mode, no apply
+                    c._dryrun_utter = utter
+                    return TurnResult(line=utter, events=[])
                 if bool(getattr(c, "_dry_run_until_t4", False)):
                     c._dryrun_t4 = SimpleNamespace(approved_deltas=deltas)
                     c._dryrun_utter = utter
@@ -136,7 +142,11 @@ def run_case(case) -> List[Tuple[str, str]]:
             outs[mode] = {"raised": raised, "results": [r.line for r in results], "files": files, "snaps": snaps, "computes": list(computes),
                           "applied": dict(store.applied), "weights": dict(store.weights), "version": state.get("version_etag")}
         b, l = outs["batch"], outs["loop"]
-        where = f"gsets={case['gsets']} workers={case['workers']} limit={case['limit']} sizes={sizes}"
+        where = f"gsets={case['gsets']} workers={case['workers']} limit={case['limit']} sizes={sizes}" + (" KILL-SWITCH" if case.get("kill") else "")
+        if case.get("kill") and (b["applied"] or str(b["version"]) != "0" or b["files"].get("apply.jsonl") or b["snaps"]):
+            fails.append(("FinalStateEqual", f"{where}: kill switch on, but the batch driver applied {b['applied']}, version {b['version']!r}, "
+                                             f"{len(b['files'].get('apply.jsonl', []))} apply record(s), snapshots {sorted(b['snaps'])}; "
+                                             f"the sequential loop: applied {l['applied']}, version {l['version']!r}"))
         # ---- the model's prediction for the batch path ----
         if b["raised"]:
             fails.append(("IndependentOfStagingLimit" if "BACKPRESSURE" in b["raised"] else "ResultsEqual", f"{where}: driver raised {b['raised']}"))
@@ -236,13 +246,20 @@ def check(run) -> None:
     all_cases = []
     for n in ([2, 3] if q else [1, 2, 3]):
         consts = {"N": n, "Graphs": ["g1", "g2"] if (q or n == 3) else ["g1", "g2", "g3"], "WorkerVals": [1, 2, 3], "LimitVals": [1, 2, 4, 100],
-                  "SizeVals": [1, 3], "DropUnpicked": False, "RetryFailsWhenTooBig": False}
+                  "SizeVals": [1, 3], "KillVals": [False], "DropUnpicked": False, "RetryFailsWhenTooBig": False}
         cfg = make_cfg(consts, invs, [], emit=False, view=None, constraint="EmitCase")
         res = run.tlc("AgentBatch", cfg, name=f"AgentBatch_n{n}", workers=8, timeout_s=1500)
         run.model_must_hold(res)
         all_cases += res.emitted
+    # kill switch on: nothing is applied by either path
+    consts = {"N": 2, "Graphs": ["g1", "g2"], "WorkerVals": [1, 2], "LimitVals": [1, 100] if q else [1, 2, 100], "SizeVals": [1] if q else [1, 3],
+              "KillVals": [True], "DropUnpicked": False, "RetryFailsWhenTooBig": False}
+    cfg = make_cfg(consts, invs + ["KillSwitchInert"], [], emit=False, view=None, constraint="EmitCase")
+    res = run.tlc("AgentBatch", cfg, name="AgentBatch_kill", workers=4, timeout_s=600)
+    run.model_must_hold(res)
+    all_cases += res.emitted
     for flag in ("DropUnpicked", "RetryFailsWhenTooBig"):
-        consts = {"N": 2, "Graphs": ["g1", "g2"], "WorkerVals": [1, 2], "LimitVals": [1, 4], "SizeVals": [1, 3],
+        consts = {"N": 2, "Graphs": ["g1", "g2"], "WorkerVals": [1, 2], "LimitVals": [1, 4], "SizeVals": [1, 3], "KillVals": [False],
                   "DropUnpicked": flag == "DropUnpicked", "RetryFailsWhenTooBig": flag == "RetryFailsWhenTooBig"}
         cfg = make_cfg(consts, ["ResultsEqual"], [], emit=False, view=None)
         res = run.tlc("AgentBatch", cfg, name=f"AgentBatch_control_{flag}", workers=4, timeout_s=600)
